@@ -44,7 +44,7 @@ typedef struct upstate {
     ABT_pool pool;
     ABT_xstream xs;
     struct { ABT_thread th; int used, queued; } slot[UPSLOTS];
-    int q[UPSLOTS], nq;
+    int q[UPSLOTS], nq, next;
     long creates, frees;
     int fail_next_create, fail_fired;
 } upstate;
@@ -83,14 +83,19 @@ static ABT_unit up18_create_unit_(ABT_pool pool, ABT_thread thread)
         UP.fail_fired = 1;
         return ABT_UNIT_NULL;
     }
-    for (int i = 0; i < UPSLOTS; i++)
+    /* next fit, not first fit: a handle value the library has not seen before needs a new entry
+     * in its unit map (an allocation that can fail); a recycled one finds its old entry */
+    for (int n = 0; n < UPSLOTS; n++) {
+        int i = (UP.next + n) % UPSLOTS;
         if (!UP.slot[i].used) {
+            UP.next = (i + 1) % UPSLOTS;
             UP.slot[i].used = 1;
             UP.slot[i].queued = 0;
             UP.slot[i].th = thread;
             UP.creates++;
             return (ABT_unit)&UP.slot[i];
         }
+    }
     sim_fail("infra:c18-user-pool-full", "user pool slots exhausted");
     return ABT_UNIT_NULL;
 }
@@ -874,6 +879,77 @@ static void u_push_many(void **h)
     ABT_OK(ABT_pool_pop_threads(push_pool, out, NPUSH, &got));
     SIM_CHECK(got == NPUSH, "fault:state-changed", "%zu of %d units came back from the pool", got, NPUSH);
 }
+/* a unit handle (not a work-unit handle) pushed into a user-defined pool: the unit-based
+ * re-association creates the pool's own unit and its map entry inside ABT_pool_push; when that
+ * fails the unit is what and where it was, and the same push succeeds afterwards */
+static ABT_pool stage_pool = ABT_POOL_NULL;
+static ABT_thread pu_t = ABT_THREAD_NULL;
+static ABT_unit pu_unit;
+static int pu_from_upool; /* the unit waits in the second user-defined pool instead of a built-in one */
+static void pu_prep_common(int from_upool)
+{
+    if (stage_pool == ABT_POOL_NULL)
+        ABT_OK(ABT_pool_create_basic(ABT_POOL_FIFO, ABT_POOL_ACCESS_MPMC, ABT_FALSE, &stage_pool));
+    if (pu_t != ABT_THREAD_NULL && pu_from_upool != from_upool) {
+        /* left over from the other entry: let it run */
+        ABT_OK(ABT_thread_set_associated_pool(pu_t, target_pool()));
+        ABT_OK(ABT_pool_push_thread(target_pool(), pu_t));
+        ABT_OK(ABT_thread_free(&pu_t));
+        pu_t = ABT_THREAD_NULL;
+    }
+    if (pu_t == ABT_THREAD_NULL) {
+        pu_from_upool = from_upool;
+        ABT_OK(ABT_thread_create(stage_pool, nop_fn, NULL, ABT_THREAD_ATTR_NULL, &pu_t));
+        ABT_thread got = ABT_THREAD_NULL;
+        ABT_OK(ABT_pool_pop_thread(stage_pool, &got));
+        SIM_CHECK(got == pu_t, "infra:c18-stage-pool", "the staging pool returned another unit");
+        if (from_upool) {
+            upb_ensure();
+            ABT_OK(ABT_thread_set_associated_pool(pu_t, UPB.pool));
+        }
+        ABT_OK(ABT_thread_get_unit(pu_t, &pu_unit));
+    }
+}
+static void p_push_unit_builtin(void)
+{
+    pu_prep_common(0);
+}
+static void p_push_unit_upool(void)
+{
+    pu_prep_common(1);
+}
+static int d_push_unit(void **h)
+{
+    int rc = ABT_pool_push(UP.pool, pu_unit);
+    *h = rc == ABT_SUCCESS ? (void *)pu_t : POISON;
+    if (rc != ABT_SUCCESS) {
+        ABT_unit u = ABT_UNIT_NULL;
+        ABT_pool lp = ABT_POOL_NULL;
+        ABT_OK(ABT_thread_get_unit(pu_t, &u));
+        ABT_OK(ABT_thread_get_last_pool(pu_t, &lp));
+        SIM_CHECK(u == pu_unit, "fault:state-changed", "after the refused ABT_pool_push the work unit's unit handle changed (%p, was %p)", (void *)u, (void *)pu_unit);
+        SIM_CHECK(lp == (pu_from_upool ? UPB.pool : stage_pool), "fault:state-changed", "after the refused ABT_pool_push the work unit is associated with another pool");
+    }
+    return rc;
+}
+static void u_push_unit(void **h)
+{
+    (void)h;
+    ABT_OK(ABT_thread_free(&pu_t)); /* it runs on the user pool's stream */
+    pu_t = ABT_THREAD_NULL;
+}
+static void pu_teardown(void)
+{
+    if (pu_t != ABT_THREAD_NULL) {
+        ABT_OK(ABT_thread_set_associated_pool(pu_t, target_pool()));
+        ABT_OK(ABT_pool_push_thread(target_pool(), pu_t));
+        ABT_OK(ABT_thread_free(&pu_t));
+        pu_t = ABT_THREAD_NULL;
+    }
+    if (stage_pool != ABT_POOL_NULL)
+        ABT_OK(ABT_pool_free(&stage_pool));
+    stage_pool = ABT_POOL_NULL;
+}
 static void push_teardown(void)
 {
     if (!push_inited)
@@ -980,6 +1056,8 @@ static const op18 OPS[] = {
     { "ABT_thread_set_associated_pool(user_pool->user_pool2)", d_assoc_up2up, u_set_assoc_upool, POISON, 2, 2, 0, p_assoc_up2up },
     { "ABT_thread_revive(user_pool->user_pool2)", d_revive_up2up, u_revive_up2up, POISON, 0, 2, 0, p_revive_up2up },
     { "ABT_xstream_set_main_sched_basic(joined,user_pool)+free", d_set_main_sched_then_free, u_set_main_sched_then_free, POISON, 0, 2, 0, p_set_main_sched_then_free },
+    { "ABT_pool_push(user_pool, unit)", d_push_unit, u_push_unit, POISON, 0, 2, 0, p_push_unit_builtin },
+    { "ABT_pool_push(user_pool, unit of user_pool2)", d_push_unit, u_push_unit, POISON, 0, 2, 0, p_push_unit_upool },
     { "ABT_pool_push_threads(x70)", d_push_many, u_push_many, POISON, 0, 0, 0, p_push_many },
     { "ABT_info_print_all_xstreams+thread_stacks_in_pool", d_info_print_all, u_none, POISON, 0 },
     { "ABT_mutex_create", d_mutex, u_mutex, ABT_MUTEX_NULL, 0 },
@@ -1221,6 +1299,7 @@ static void run_c18(void)
     }
     follow_up("all");
     ABT_OK(ABT_thread_free(&revive_t));
+    pu_teardown();
     push_teardown();
     jfree_teardown();
     if (X.populated) /* (a unit may still be associated with a user-defined pool) */
